@@ -14,6 +14,7 @@ Exceptions thrown by the code under test never escape: they become observations.
 visited for the first time all of its terminal observer edges on the same live object (sound because the state
 projection is compared after each observer as well).
 """
+import copy
 import operator
 
 from harness.pyenv import repo_import
@@ -144,6 +145,8 @@ _SETVAL = {"copy", "union", "intersection", "difference", "rdifference", "symmet
 _SEQVAL = {"iter", "reversed", "getslice"}
 _BOOLVAL = {"contains", "issubset", "issuperset", "isdisjoint", "le", "lt", "ge", "gt", "eq", "ne"}
 _IOPS = {"ior": operator.ior, "iand": operator.iand, "isub": operator.isub, "ixor": operator.ixor}
+_BINARY = {"union", "intersection", "difference", "rdifference", "symmetric_difference", "issubset", "issuperset",
+           "isdisjoint", "le", "lt", "ge", "gt", "eq", "ne"}
 
 
 class SetBinding:
@@ -151,7 +154,7 @@ class SetBinding:
 
     def __init__(self, inst, form, n):
         self.inst = inst if isinstance(inst, SetInst) else SET_INSTS[inst]
-        self.form = form
+        self.form = form or self.inst.forms[0]
         self.n = n
         self.cls = repo_import("cassandra.util").SortedSet
         self.obj = None
@@ -166,6 +169,31 @@ class SetBinding:
         except Exception as ex:                      # a broken constructor must not crash the harness
             self.obj = ex
         return self
+
+    # -- the live object and what the harness knows about it
+    def state(self):
+        return (self.obj, self.cur)
+
+    def load(self, st):
+        self.obj, self.cur = st
+
+    def fork(self, st):
+        return (clone(st[0]), st[1])
+
+    def forms_for(self, act):
+        """Operand forms under which the class offers this operation (first = the one behaviours continue with)."""
+        name = act["name"]
+        forms = self.inst.forms
+        if name in ("new", "update") or name in _BINARY:
+            if name == "symmetric_difference":
+                return [f for f in forms if f != "list"]      # needs other.difference: not offered for plain lists
+            return forms
+        if name in _IOPS:
+            fs = [f for f in forms if not (f == "list" and name == "ixor")]
+            if sorted(act["arg"]) == self.cur:
+                fs = fs + ["alias"]                           # s |= s, s -= s, ...
+            return fs
+        return forms[:1]
 
     # -- operands
     def cached_operand(self, T, form):
@@ -361,7 +389,7 @@ class SetBinding:
             f = form
             if f == "list" and name == "ixor":
                 f = "sortedset"                       # s ^= [..] needs other.difference: not offered
-            if f == "sortedset" and step % 2 == 1 and sorted(arg) == self.cur:
+            if f == "alias":
                 o = s                                 # aliasing: s |= s, s -= s, ...
                 self._operand_check = None
             else:
@@ -393,15 +421,32 @@ class MapBinding:
 
     def __init__(self, inst, form, n):
         self.inst = inst if isinstance(inst, MapInst) else MAP_INSTS[inst]
-        self.form = form                              # "a" | "b": constructor style, key representation phase
+        self.form = form or "a"                       # "a" | "b": constructor style, key representation phase
+        self.multirep = any(len(r) > 1 for r in self.inst.reps)
         self.n = n
         util = repo_import("cassandra.util")
         self.cls = getattr(util, self.inst.cls)
         self.serialized = self.inst.cls == "OrderedMapSerializedKey"
         self.ktype = key_cql_type() if self.serialized else None
-        self.phase = 0 if form == "a" else 1
         self.calls = 0
         self.fresh()
+
+    def state(self):
+        return (self.obj, self.cur, self.rep)
+
+    def load(self, st):
+        self.obj, self.cur, self.rep = st
+
+    def fork(self, st):
+        return (clone(st[0]), st[1], dict(st[2]))
+
+    def forms_for(self, act):
+        name = act["name"]
+        if name == "new":
+            return ["a", "b"]
+        if self.multirep and name in ("setitem", "delitem", "getitem", "get", "contains"):
+            return ["a", "b"]                           # both Python values that denote the key
+        return ["a"]
 
     def _empty(self):
         return self.cls(self.ktype, 4) if self.serialized else self.cls()
@@ -416,7 +461,7 @@ class MapBinding:
         return self
 
     def _rep_for(self, k, step):
-        return (k + step + self.phase) % 2
+        return (k + step + (1 if self.form == "b" else 0)) % 2
 
     def build(self, pairs, reps=None):
         """Another map of the same class holding `pairs` (model space) in that order."""
@@ -629,11 +674,19 @@ def make_binding(kind, inst, form, n):
     return SetBinding(inst, form, n) if kind == "set" else MapBinding(inst, form, n)
 
 
-def passes(kind):
-    """(instantiation, form) pairs every walk is replayed under."""
-    if kind == "set":
-        return [(i.name, f) for i in SET_INSTS.values() for f in i.forms]
-    return [(i.name, f) for i in MAP_INSTS.values() for f in ("a", "b")]
+def instantiations(kind):
+    return list(SET_INSTS) if kind == "set" else list(MAP_INSTS)
+
+
+def clone(obj):
+    """Structural copy of the real object's representation (its __dict__), made without calling any method
+    of the class under test: used to branch a behaviour at a node of the state graph."""
+    try:
+        new = object.__new__(type(obj))
+        new.__dict__.update(copy.deepcopy(obj.__dict__))
+        return new
+    except Exception:
+        return obj
 
 
 def jsonable(v):
@@ -662,23 +715,65 @@ def plain(v):
     return str(v)
 
 
-def run_sequence(kind, inst, form, n, ops, corrupt_at=None, corrupt=None):
-    """ops: list of (act, expected_state).  Returns (index, divergence) of the first divergence or None."""
-    b = make_binding(kind, inst, form, n)
+def run_sequence(kind, inst, n, ops, corrupt_at=None, corrupt=None):
+    """ops: list of (act, expected_state, form); form "*" = every form the binding offers for the action.
+    Executes them on one fresh object.  Returns (index, divergence) of the first divergence or None."""
+    b = make_binding(kind, inst, None, n)
     midx = 0
-    for i, (act, exp) in enumerate(ops):
+    for i, (act, exp, form) in enumerate(ops):
         if b.is_mutator(act["name"]):
             midx += 1
-        d = step(b, act, exp, midx, corrupt if corrupt_at == i else None)
-        if d:
-            return i, d
+        forms = b.forms_for(act) if form == "*" else [form]
+        if b.is_mutator(act["name"]):
+            forms = forms[:1]
+        for f in forms:
+            b.form = f
+            d = step(b, act, exp, midx, corrupt if corrupt_at == i else None)
+            if d:
+                return i, d
     return None
 
 
-def replay_graph(kind, inst, form, n, nodes, walks, obs_out, on_divergence, max_divergences=2000):
-    """Replay `walks` (lists of node ids, mutator edges) under one (instantiation, form); at each node visited
-    for the first time fire all its terminal observer edges.  Returns statistics."""
-    b = make_binding(kind, inst, form, n)
+def replay_walks(kind, inst, n, nodes, walks, on_divergence):
+    """Replay walks (lists of node ids) from scratch: one fresh object per walk, no branching by cloning; the
+    operand form rotates with the walk."""
+    b = make_binding(kind, inst, None, n)
+    stats = {"walks": 0, "clean_walks": 0, "divergences": 0}
+    for wi, w in enumerate(walks):
+        b.fresh()
+        history = []
+        ok = True
+        midx = 0
+        for idx in range(1, len(w)):
+            node = nodes[w[idx]]
+            act = node["act"]
+            fs = b.forms_for(act)
+            b.form = fs[(wi + idx) % len(fs)]
+            if b.is_mutator(act["name"]):
+                midx += 1
+            e = b.expected_state(node)
+            history.append((act, e, b.form))
+            d = step(b, act, e, midx)
+            if d:
+                ok = False
+                stats["divergences"] += 1
+                on_divergence(d, history)
+                if not d.get("state_in_sync"):
+                    break
+        stats["walks"] += 1
+        stats["clean_walks"] += 1 if ok else 0
+    stats["calls"] = b.calls
+    return stats
+
+
+def replay_dfs(kind, inst, n, nodes, succ, obs_out, init, on_divergence, max_desync=500):
+    """Replay EVERY edge of the state graph under one instantiation, in every operand form the class offers for
+    the edge's operation.  Depth-first from the initial state: the live object of a node is branched by clone()
+    for each outgoing edge, so each behaviour (path) is executed operation by operation without re-running
+    prefixes.  Terminal observer edges of a node are fired on the node's live object (the state projection is
+    compared after each, so purity is checked, not assumed).
+    Returns (stats, covered edges)."""
+    b = make_binding(kind, inst, None, n)
     expcache = {}
 
     def exp(nid):
@@ -687,51 +782,72 @@ def replay_graph(kind, inst, form, n, nodes, walks, obs_out, on_divergence, max_
             e = expcache[nid] = b.expected_state(nodes[nid])
         return e
 
-    seen = set()
-    stats = {"walks": 0, "clean_walks": 0, "edges": 0, "calls": 0, "divergences": 0, "desynced_walks": 0}
+    stats = {"edges": 0, "edge_executions": 0, "behaviours": 0, "clean_behaviours": 0, "divergences": 0,
+             "desynced": 0, "clones": 0}
     covered = set()
-    for w in walks:
-        b.fresh()
-        history = []                                     # (act, expected state) executed on this object
-        ok = True
-        desync = False
-        for idx, nid in enumerate(w):
-            node = nodes[nid]
-            if idx > 0:
-                act = node["act"]
-                e = exp(nid)
-                history.append((act, e))
-                d = step(b, act, e, idx)
-                covered.add((w[idx - 1], nid))
+    expanded = set()
+
+    def visit(nid, st, depth, lineage, clean):
+        expanded.add(nid)
+        e = exp(nid)
+        b.load(st)
+        here = []
+        for leaf in obs_out.get(nid, ()):
+            act = nodes[leaf]["act"]
+            covered.add((nid, leaf))
+            here.append((act, e, "*"))
+            for f in b.forms_for(act):
+                b.form = f
+                stats["edge_executions"] += 1
+                d = step(b, act, e, depth)
                 if d:
-                    ok = False
+                    clean = False
                     stats["divergences"] += 1
-                    on_divergence(d, history, idx)
+                    on_divergence(d, lineage + here[:-1] + [(act, e, f)])
                     if not d.get("state_in_sync"):
-                        desync = True
-                        break
-            if nid not in seen:
-                seen.add(nid)
-                e = exp(nid)
-                for leaf in obs_out.get(nid, ()):
-                    act = nodes[leaf]["act"]
-                    history.append((act, e))
-                    d = step(b, act, e, idx)
-                    covered.add((nid, leaf))
-                    if d:
-                        ok = False
-                        stats["divergences"] += 1
-                        on_divergence(d, history, idx)
-                        if not d.get("state_in_sync"):
-                            desync = True
-                            break
-                if desync:
-                    break
-        stats["walks"] += 1
-        stats["clean_walks"] += 1 if ok else 0
-        stats["desynced_walks"] += 1 if desync else 0
-        if stats["desynced_walks"] >= max_divergences:
-            break
+                        stats["desynced"] += 1
+                        return
+        st = b.state()
+        outs = succ.get(nid, ())
+        if not outs:
+            stats["behaviours"] += 1
+            stats["clean_behaviours"] += 1 if clean else 0
+            return
+        lin = lineage + here
+        for v in outs:
+            if stats["desynced"] >= max_desync:
+                return
+            act = nodes[v]["act"]
+            ev = exp(v)
+            covered.add((nid, v))
+            b.load(st)
+            forms = b.forms_for(act)
+            go = None
+            edge_clean = True
+            for i, f in enumerate(forms):
+                b.load(b.fork(st))
+                stats["clones"] += 1
+                b.form = f
+                stats["edge_executions"] += 1
+                d = step(b, act, ev, depth + 1)
+                if d:
+                    edge_clean = False
+                    stats["divergences"] += 1
+                    on_divergence(d, lin + [(act, ev, f)])
+                    if not d.get("state_in_sync"):
+                        stats["desynced"] += 1
+                        continue
+                if i == 0:
+                    go = b.state()
+            if go is not None and v not in expanded:
+                visit(v, go, depth + 1, lin + [(act, ev, forms[0])], clean and edge_clean)
+            else:
+                stats["behaviours"] += 1
+                stats["clean_behaviours"] += 1 if (clean and edge_clean) else 0
+
+    for i0 in init:
+        b.fresh()
+        visit(i0, b.state(), 0, [], True)
     stats["edges"] = len(covered)
     stats["calls"] = b.calls
     return stats, covered
